@@ -261,8 +261,13 @@ func (db *DB) NeedsTable(filePath string) bool {
 	return db.checkpoints.IncludesTable(filePath)
 }
 
+// Close waits for the background flush and compaction tasks so that an
+// abandoned database cannot keep writing files into its directory.
 func (db *DB) Close() error {
-	return nil
+	if db == nil {
+		return nil
+	}
+	return db.tasks.Wait()
 }
 
 func (db *DB) Diagnostics() string {
